@@ -59,6 +59,14 @@ type vfC05Op struct {
 	extra bool
 	relay *vfC05Op
 
+	// clock-ahead dimension (the node's hybrid logical clock runs a few ms ahead of the bucket's clock): every
+	// write is followed by a post-commit re-stamp (UpdateXattrs guarded by the CAS of the write itself).
+	// restampHook runs immediately before that re-stamp, failRestamp answers it with an injected CAS mismatch;
+	// fresh = the client re-reads the document first (a complete read-modify-write)
+	restampHook []*vfC05Op
+	failRestamp bool
+	fresh       bool
+
 	instrumented bool
 	hooks        [][]*vfC05Op // hooks[k] runs immediately before the (k+1)-th CAS write of this operation
 	failCas      []bool       // failCas[k]: the (k+1)-th CAS write of a given kind is answered with a CAS mismatch
@@ -84,6 +92,9 @@ func (o *vfC05Op) render() string {
 	if o.kind == "relay" && o.relay != nil {
 		s += fmt.Sprintf(",mid-of#%d", o.relay.id)
 	}
+	if o.fresh {
+		s += ",reread"
+	}
 	s += ")#" + strconv.Itoa(o.id)
 	if o.yield > 0 {
 		s += fmt.Sprintf("~%d", o.yield)
@@ -107,6 +118,17 @@ func (o *vfC05Op) render() string {
 		}
 		s += "[" + strings.Join(tries, " ") + "]"
 	}
+	if o.instrumented && (o.failRestamp || len(o.restampHook) > 0) {
+		t := "[restamp:"
+		if o.failRestamp {
+			t += "failcas"
+		}
+		var inner []string
+		for _, n := range o.restampHook {
+			inner = append(inner, n.render())
+		}
+		s += t + "{" + strings.Join(inner, "; ") + "}]"
+	}
 	return s
 }
 
@@ -115,6 +137,8 @@ type vfC05Gen struct {
 	allow         bool
 	next          int
 	multi         bool // multi-node mode: extra kinds
+	skew          bool // clock-ahead dimension: re-stamp windows are generated
+	inRestamp     bool // generating the window of a re-stamp
 }
 
 var vfC05Kinds = []string{"read", "read", "put", "put", "put", "put", "push", "pushnc", "del", "pushdel"}
@@ -167,6 +191,9 @@ func (g *vfC05Gen) ops(rt *rapid.T, depth int, busy []int, n int, focus int, enc
 		if strings.HasPrefix(o.kind, "push") {
 			o.win = rapid.Bool().Draw(rt, "hi")
 		}
+		if g.skew && g.inRestamp && o.kind != "read" && o.kind != "warm" && o.kind != "idle" {
+			o.fresh = rapid.IntRange(0, 2).Draw(rt, "reread") != 0
+		}
 		if o.kind != "read" && o.kind != "warm" && o.kind != "idle" && depth < 2 && rapid.IntRange(0, 9).Draw(rt, "instrument") < 6 {
 			o.instrumented = true
 			tries := rapid.IntRange(1, 3).Draw(rt, "tries")
@@ -174,6 +201,14 @@ func (g *vfC05Gen) ops(rt *rapid.T, depth int, busy []int, n int, focus int, enc
 				o.failCas = append(o.failCas, rapid.IntRange(0, 3).Draw(rt, "failcas") == 0)
 				nn := rapid.IntRange(0, 2).Draw(rt, "nested")
 				o.hooks = append(o.hooks, g.ops(rt, depth+1, append(append([]int{}, busy...), o.client), nn, o.doc, o))
+			}
+			if g.skew {
+				o.failRestamp = rapid.Bool().Draw(rt, "failRestamp")
+				nn := rapid.IntRange(0, 2).Draw(rt, "restampNested")
+				was := g.inRestamp
+				g.inRestamp = true
+				o.restampHook = g.ops(rt, depth+1, append(append([]int{}, busy...), o.client), nn, o.doc, nil)
+				g.inRestamp = was
 			}
 		}
 		out = append(out, o)
@@ -244,6 +279,13 @@ type vfC05World struct {
 	problems  []string // oracle failures noticed while other code is on the stack; raised by the caller
 	attempts  map[string]int
 	windowAck map[int]bool // op id -> an acknowledged same-document write landed inside one of its windows
+	// clock-ahead dimension
+	commitPos             map[int]int // op id -> position its acknowledgement takes in commit order (its write was stored before its re-stamp window opened)
+	restampSeen           bool        // a re-stamp write of an instrumented operation was observed
+	restampWindow         bool        // operations ran inside a re-stamp window
+	restampLost           bool        // an acknowledged same-document write landed inside a re-stamp window: the re-stamp must lose its CAS race
+	restampFailInj        bool        // a re-stamp was answered with an injected CAS mismatch
+	restampAfterLeftAhead bool        // a same-document write landed in a re-stamp window and its own re-stamp was failed: the stored version stays ahead of its CAS
 	// multi-node mode
 	inflight  map[int]vfC05Chain // push with an intermediate revision that is executing: op id -> chain
 	warmSeqs  map[uint64]string  // sequences acknowledged to warm-up writes of private documents
@@ -352,6 +394,15 @@ func (w *vfC05World) exec(o *vfC05Op, depth int) {
 		} else {
 			kind = "put" // the target is not a push with an intermediate revision in this execution
 		}
+	}
+	if o.fresh && kind != "read" {
+		if doc, err := node.coll.GetDocument(node.ctx, docID, DocUnmarshalAll); err == nil {
+			w.know[o.client][o.doc] = vfC05Known{known: true, rev: doc.GetRevTreeID()}
+		} else if vfC05NotFound(err) {
+			w.know[o.client][o.doc] = vfC05Known{}
+		}
+		k = w.know[o.client][o.doc]
+		w.logf("c%d.reread(d%d)=%q", o.client, o.doc, k.rev)
 	}
 	if kind != "read" && kind != "put" && kind != "relay" && !k.known {
 		kind = "put" // nothing read yet: the only sensible write is a create
@@ -543,9 +594,19 @@ func (w *vfC05World) outcome(o *vfC05Op, kind string, k vfC05Known, pushedRev, m
 	}
 	a := vfC05Ack{op: o.id, client: o.client, doc: o.doc, kind: kind, named: named, mid: mid, rev: rev, node: nodeIdx, seq: doc.Sequence,
 		deleted: kind == "del" || kind == "pushdel", unused: append([]uint64{}, doc.UnusedSequences...), v: o.id}
-	w.acks = append(w.acks, a)
+	if pos, ok := w.commitPos[o.id]; ok && pos <= len(w.acks) {
+		// the write was stored before the operations of its re-stamp window: commit order, not completion order
+		w.acks = append(w.acks, vfC05Ack{})
+		copy(w.acks[pos+1:], w.acks[pos:])
+		w.acks[pos] = a
+		if w.lastSeq[o.doc] < doc.Sequence {
+			w.lastSeq[o.doc] = doc.Sequence
+		}
+	} else {
+		w.acks = append(w.acks, a)
+		w.lastSeq[o.doc] = doc.Sequence
+	}
 	w.know[o.client][o.doc] = vfC05Known{known: true, rev: rev}
-	w.lastSeq[o.doc] = doc.Sequence
 	if w.windowAck[o.id] {
 		w.legal = true
 	}
@@ -577,16 +638,31 @@ func (w *vfC05World) plan(o *vfC05Op, depth int, rules *[]vs.Rule) {
 			*rules = append(*rules, vs.Rule{Type: typ, Key: w.docs[o.doc], Label: o.label(), Nth: n, Fault: f})
 		}
 	}
+	for n := 1; n <= vfC05MaxTries; n++ {
+		// failRestamp fails the re-stamp at EVERY attempt the code under test makes (the unchanged tree makes one)
+		f := vs.Fault{Hook: hookFor(vs.OpUpdateXattrs)}
+		if o.failRestamp {
+			f.Action = vs.FailCas
+		}
+		*rules = append(*rules, vs.Rule{Type: vs.OpUpdateXattrs, Key: w.docs[o.doc], Label: o.label(), Nth: n, Fault: f})
+	}
 	for _, hs := range o.hooks {
 		for _, n := range hs {
 			w.plan(n, depth+1, rules)
 		}
+	}
+	for _, n := range o.restampHook {
+		w.plan(n, depth+1, rules)
 	}
 }
 
 // runHook is what happens inside op's read -> CAS-write window, immediately before its k-th CAS write
 // (of primitive type typ): the generated complete operations of other clients.
 func (w *vfC05World) runHook(op *vfC05Op, depth int, typ vs.OpType) {
+	if typ == vs.OpUpdateXattrs {
+		w.runRestampHook(op, depth)
+		return
+	}
 	w.mu.Lock()
 	k := w.attempts[op.label()]
 	w.attempts[op.label()] = k + 1
@@ -634,6 +710,40 @@ func (w *vfC05World) runHook(op *vfC05Op, depth int, typ vs.OpType) {
 						w.behind = true
 						w.behindOp[op.id] = true
 					}
+				}
+			}
+		}
+	}
+	w.mu.Unlock()
+}
+
+// runRestampHook is what happens between op's stored write and its post-commit re-stamp (clock-ahead
+// dimension): complete operations of other clients. op's write is already committed, so its acknowledgement
+// takes the commit position BEFORE everything acknowledged in here. A same-document write in here makes the
+// re-stamp lose its CAS race (legal); nothing in the history may change either way.
+func (w *vfC05World) runRestampHook(op *vfC05Op, depth int) {
+	w.mu.Lock()
+	w.restampSeen = true
+	if _, set := w.commitPos[op.id]; set {
+		w.mu.Unlock()
+		return // a second re-stamp of one operation: nothing generated for it
+	}
+	before := len(w.acks)
+	w.commitPos[op.id] = before
+	w.mu.Unlock()
+	for _, n := range op.restampHook {
+		w.exec(n, depth+1)
+	}
+	w.mu.Lock()
+	if len(op.restampHook) > 0 {
+		w.restampWindow = true
+	}
+	for _, a := range w.acks[before:] {
+		if a.doc == op.doc {
+			w.restampLost = true
+			for _, n := range op.restampHook {
+				if n.id == a.op && n.instrumented && n.failRestamp {
+					w.restampAfterLeftAhead = true
 				}
 			}
 		}
@@ -1053,7 +1163,7 @@ func vfC05OpenSecondNode(t *testing.T, env *vfEnv, w *vs.Bucket, allow bool) (n 
 
 func vfC05NewWorld(env *vfEnv, w *vs.Bucket, allow bool, clients, docs int) *vfC05World {
 	world := &vfC05World{env: env, w: w, allow: allow, attempts: map[string]int{}, resWindow: map[int]int{},
-		windowAck: map[int]bool{}, inflight: map[int]vfC05Chain{}, warmSeqs: map[uint64]string{}, lastSeq: map[int]uint64{}, behindOp: map[int]bool{}}
+		windowAck: map[int]bool{}, commitPos: map[int]int{}, inflight: map[int]vfC05Chain{}, warmSeqs: map[uint64]string{}, lastSeq: map[int]uint64{}, behindOp: map[int]bool{}}
 	world.nodes = []*vfC05Node{{ctx: env.Ctx, dbc: env.DBC, coll: env.Coll}}
 	world.nodeOf = make([]int, clients)
 	for d := 0; d < docs; d++ {
@@ -1107,16 +1217,25 @@ func TestVerif_C05_Interleave(t *testing.T) {
 	defer restore()
 	rapid.Check(t, func(rt *rapid.T) {
 		g := &vfC05Gen{}
+		skewMs := vfC05DrawSkew(rt)
+		g.skew = skewMs > 0
 		g.allow = rapid.IntRange(0, 3).Draw(rt, "allowConflicts") == 0
 		g.clients = rapid.IntRange(2, 4).Draw(rt, "clients")
 		g.docs = rapid.IntRange(1, 2).Draw(rt, "docs")
 		seeded := rapid.IntRange(0, 3).Draw(rt, "seeded") != 0
-		top := g.ops(rt, 0, nil, rapid.IntRange(2, 8).Draw(rt, "ops"), -1, nil)
+		nTop := rapid.IntRange(2, 8).Draw(rt, "ops")
+		if g.skew && nTop > 5 {
+			nTop = 5 // every write of such a case waits out the clock gap
+		}
+		top := g.ops(rt, 0, nil, nTop, -1, nil)
 		var planParts []string
 		for _, o := range top {
 			planParts = append(planParts, o.render())
 		}
 		render := fmt.Sprintf("allowConflicts=%v clients=%d docs=%d seeded=%v: %s", g.allow, g.clients, g.docs, seeded, strings.Join(planParts, "; "))
+		if g.skew {
+			render = fmt.Sprintf("clockAhead=%dms ", skewMs) + render
+		}
 
 		env, w, err := vfC05Open(t, g.allow, true)
 		if err != nil {
@@ -1127,17 +1246,61 @@ func TestVerif_C05_Interleave(t *testing.T) {
 		defer env.Close()
 		world := vfC05NewWorld(env, w, g.allow, g.clients, g.docs)
 		world.avoid = kit.Known("C05", vfC05SigResurrect)
+		vfC05SetSkew(world, skewMs)
 		vfC05Run(rt, rec, "Interleave", render, world, top, seeded, g.clients)
 		mode := "mode=conflict-free"
 		if g.allow {
 			mode = "mode=conflicts-allowed"
 		}
 		classes, nontrivial := vfC05Classes(world, mode, fmt.Sprintf("clients=%d", g.clients))
+		classes = append(classes, vfC05SkewClasses(world, skewMs)...)
 		for i := 0; i < world.excluded; i++ {
 			rec.Excluded(vfC05SigResurrect)
 		}
 		rec.Case(render, nontrivial, classes...)
 	})
+}
+
+// vfC05DrawSkew: clock-ahead dimension. In 1 of 4 cases every node's hybrid logical clock runs 4-20 ms ahead of
+// the bucket's clock (constant per case), so every write generates a version ahead of the CAS it is given and
+// goes through the post-commit correction (sleep out the gap, re-stamp guarded by the CAS of its own write).
+func vfC05DrawSkew(rt *rapid.T) int {
+	if rapid.IntRange(0, 3).Draw(rt, "clockAhead") != 0 {
+		return 0
+	}
+	return rapid.IntRange(4, 20).Draw(rt, "clockAheadMs")
+}
+
+func vfC05SetSkew(w *vfC05World, skewMs int) {
+	if skewMs <= 0 {
+		return
+	}
+	skew := uint64(time.Duration(skewMs) * time.Millisecond)
+	for _, n := range w.nodes {
+		n.dbc.hlc.SetClockForTest(func() uint64 { return sgbucket.HLCWallClock() + skew })
+	}
+}
+
+func vfC05SkewClasses(w *vfC05World, skewMs int) (classes []string) {
+	if skewMs <= 0 {
+		return nil
+	}
+	classes = append(classes, "clock-ahead")
+	for _, c := range []struct {
+		on   bool
+		name string
+	}{
+		{w.restampSeen, "clock-ahead:re-stamp-write-observed"},
+		{w.restampWindow, "clock-ahead:operations-in-re-stamp-window"},
+		{w.restampLost, "clock-ahead:re-stamp-lost-cas-race-to-acknowledged-write"},
+		{w.restampFailInj, "clock-ahead:re-stamp-injected-cas-failure"},
+		{w.restampAfterLeftAhead, "clock-ahead:re-stamp-lost-to-write-whose-version-stays-ahead-of-cas"},
+	} {
+		if c.on {
+			classes = append(classes, c.name)
+		}
+	}
+	return classes
 }
 
 // vfC05Run executes a generated operation tree deterministically and runs the history checker.
@@ -1162,6 +1325,13 @@ func vfC05Run(rt *rapid.T, rec *kit.Rec, test, render string, world *vfC05World,
 		w.Arm(&vs.Plan{Rules: rules})
 		kit.Guard(rt, "C05", test, func() string { return render + "\nexecution: " + world.history() }, func() { world.exec(o, 0) })
 		for _, op := range w.MarkedTrace() {
+			if op.Type == vs.OpUpdateXattrs {
+				// the post-commit re-stamp: a metadata-only CAS write, not a retry of the update
+				if op.Action == vs.FailCas {
+					world.restampFailInj = true
+				}
+				continue
+			}
 			if op.Action == vs.FailCas {
 				world.failcas = true
 				world.retried = true
@@ -1193,6 +1363,8 @@ func TestVerif_C05_MultiNode(t *testing.T) {
 	defer func() { MaxSequenceIncrFrequency = oldFreq }()
 	rapid.Check(t, func(rt *rapid.T) {
 		g := &vfC05Gen{multi: true}
+		skewMs := vfC05DrawSkew(rt)
+		g.skew = skewMs > 0
 		nNodes := 2
 		if rapid.IntRange(0, 3).Draw(rt, "threeNodes") == 0 {
 			nNodes = 3
@@ -1231,6 +1403,9 @@ func TestVerif_C05_MultiNode(t *testing.T) {
 		}
 		render := fmt.Sprintf("nodes=%d batchGrowth=%v clientNodes=%v warmUp=%v allowConflicts=%v clients=%d docs=%d seeded=%v: %s",
 			nNodes, growth, nodeOf, warm, g.allow, g.clients, g.docs, seeded, strings.Join(planParts, "; "))
+		if g.skew {
+			render = fmt.Sprintf("clockAhead=%dms ", skewMs) + render
+		}
 
 		env, w, err := vfC05Open(t, g.allow, true)
 		if err != nil {
@@ -1258,6 +1433,7 @@ func TestVerif_C05_MultiNode(t *testing.T) {
 			n.dbc.sequences.releaseSequenceWait = time.Hour
 			n.dbc.sequences.mutex.Unlock()
 		}
+		vfC05SetSkew(world, skewMs)
 		world.started = time.Now()
 		for _, nd := range warm {
 			world.warmWrite(nd)
@@ -1299,6 +1475,7 @@ func TestVerif_C05_MultiNode(t *testing.T) {
 				break
 			}
 		}
+		classes = append(classes, vfC05SkewClasses(world, skewMs)...)
 		for i := 0; i < world.excluded; i++ {
 			rec.Excluded(vfC05SigResurrect)
 		}
